@@ -236,6 +236,7 @@ def run(ctx):
     # through the whole pipeline: PUSH_CONSTANT_STAGES for a push constant that is used, unused, or only mentioned in a helper nobody calls
     C03.end_to_end(ctx, seen)
     C03.wrappers(ctx, seen)
+    C03.multi_use(ctx, seen)
     ctx.extra['violations_by_rule'] = seen
 
 
